@@ -868,7 +868,7 @@ f_shutdown (void)
 {
   /* set exit code. return the argument or zero if no argument */
   if (st_num_arg)
-    g_exit_code = (int)(st_num_arg ? sp->u.number : (*++sp = const0, 0));
+    g_exit_code = (int)(sp--)->u.number;	/* void efun: pops its argument */
 
   /* initiate shutdown (ends backend loop) */
   g_proceeding_shutdown++;
@@ -1078,6 +1078,11 @@ f_set_reset (void)
       sp->u.ob->next_reset = current_time + CONFIG_INT (__TIME_TO_RESET__) / 2
         + rand () % (CONFIG_INT (__TIME_TO_RESET__) / 2);
       free_object ((sp--)->u.ob, "f_set_reset:2");
+    }
+  else
+    {
+      /* resets are disabled: nothing to schedule, but the argument still has to go */
+      free_object ((sp--)->u.ob, "f_set_reset:3");
     }
 }
 #endif
